@@ -29,6 +29,7 @@ class ScriptedNetworkStack(BaseNetworkStack):
         self.pair_log: List[Dict[str, Any]] = []
         self.n_partner = 0
         self.n_create_expected = 0
+        self.purpose_offset = 0
         executor.wait_hook = self.on_wait
 
     # ---- BaseNetworkStack
@@ -40,7 +41,8 @@ class ScriptedNetworkStack(BaseNetworkStack):
         return None
 
     def get_purpose_id(self, remote_node_id: int, epr_socket_id: int) -> int:
-        return epr_socket_id
+        # the purpose id is the network stack's business; a non-zero offset keeps it distinct from the socket id
+        return epr_socket_id + self.purpose_offset
 
     # ---- plan handling
     def expect(self, role: str, tp: str, number: int, fields: Optional[List[Dict[str, Any]]] = None, remote_node_id=1, purpose_id=0) -> None:
